@@ -1,4 +1,5 @@
 """C01, C02, C03, C10, C15 — creation properties, engine E1 (R + S)."""
+import contextlib
 import os
 
 from mc import core, e1, e2, fsshim, tf, world, seams
@@ -30,6 +31,22 @@ CLI_FLAGS = {
     "C02": ["--meta-version", "2"],
     "C03": ["--meta-version", "3"],
 }
+
+
+@contextlib.contextmanager
+def nofile_limit(n):
+    """Run under the usual default limit of open files (the sandbox allows far
+    more), so that the pair members are compared where handles are scarce."""
+    if n is None:
+        yield
+        return
+    import resource
+    soft, hard = resource.getrlimit(resource.RLIMIT_NOFILE)
+    resource.setrlimit(resource.RLIMIT_NOFILE, (min(n, hard), hard))
+    try:
+        yield
+    finally:
+        resource.setrlimit(resource.RLIMIT_NOFILE, (soft, hard))
 
 
 def judge(oracle, raw, tree, P_req, B, name):
@@ -270,6 +287,10 @@ class CreateCheck:
                    "shape": "W1100", "seed": seed, "listing": "native",
                    "sizes_list": e1.cyclic_vectors(
                        1100, [0, 1, 7, 16384, 16385, 5], offsets=[0])})
+        gs.append({"kind": "vec", "scale": "R", "B": REAL_B, "P": 16384,
+                   "shape": "W1100", "seed": seed, "listing": "native",
+                   "sizes_list": e1.cyclic_vectors(
+                       1100, [3, 1, 7, 16384, 16385, 5], offsets=[0])})
         gs.append({"kind": "vec", "scale": "S", "B": 2, "P": 4,
                    "shape": "W1100", "seed": seed, "listing": "native",
                    "sizes_list": [[5] + [0] * 1098 + [7]]})
@@ -326,7 +347,8 @@ class CreateCheck:
         tf.reset_process_state()
         ctx = seams.listing_order("reversed") if listing == "reversed" \
             else seams.nullctx()
-        with tf.scale(B), ctx:
+        with tf.scale(B), ctx, nofile_limit(
+                1024 if pid == "C10" and w["shape"] == "W1100" else None):
             if pid == "C10":
                 raws = {}
                 for creator in ("Assembler2", "TorrentFileV2", "Assembler3",
